@@ -246,7 +246,10 @@ def run_history(b: Batch, platform, cfg, k32=None):
         from watchdog.observers.api import ObservedWatch
 
         q = RecQ()
-        watch = ObservedWatch(root_abs, recursive=recursive)
+        as_bytes = platform == "fsevents" and cfg.get("bytes")
+        watch = ObservedWatch(os.fsencode(root_abs) if as_bytes else root_abs, recursive=recursive)
+        if as_bytes:
+            b.count("fsevents_histories_with_bytes_root")
         if platform == "windows":
             from watchdog.observers.read_directory_changes import WindowsApiEmitter
 
@@ -339,7 +342,13 @@ def run_history(b: Batch, platform, cfg, k32=None):
                     native_log.append([(p[len(root_abs):], i, hex(f)) for p, i, f in ch])
                     ids = list(range(next_id[0], next_id[0] + len(ch)))
                     next_id[0] += len(ch)
-                    em.events_callback([p for p, _, _ in ch], [i for _, i, _ in ch], [f for _, _, f in ch], ids)
+                    try:
+                        em.events_callback([p for p, _, _ in ch], [i for _, i, _ in ch], [f for _, _, f in ch], ids)
+                    except Exception as e:  # noqa: BLE001
+                        if "raised" not in reported:
+                            reported.add("raised")
+                            b.violation("fsevents-emitter-raised", f"FSEventsEmitter.events_callback raised {type(e).__name__}: {e}",
+                                        witness={"platform": platform, "cfg": cfg, "ops": ops, "native": native_log[-3:]}, replay_spec=rs)
                     stream.extend(q.take())
                     # invariant at a quiescent point on the anchored state: the set of inodes "known to exist" holds no item
                     # whose last native record said Removed (such a stale entry swallows the created event of the next item
@@ -377,7 +386,14 @@ def run_history(b: Batch, platform, cfg, k32=None):
                     flags["stale_kind"] = True
             native_log.append(list(recs))
             k32.batches.append(platshim.pack_fni(recs, pad_words=r.choice([0, 0, 1, 2]), exact_last=r.random() < 0.5))
-            em.queue_events(0.01)
+            try:
+                em.queue_events(0.01)
+            except Exception as e:  # noqa: BLE001
+                # EventEmitter.run() has no handler: the emitter thread would die here and every later notification be lost
+                if "raised" not in reported:
+                    reported.add("raised")
+                    b.violation("windows-emitter-raised", f"WindowsApiEmitter.queue_events raised {type(e).__name__}: {e} on a well-formed buffer {recs[:6]}",
+                                witness={"platform": platform, "cfg": cfg, "ops": ops, "native": native_log[-3:]}, replay_spec=rs)
             stream.extend(q.take())
 
         consumed = [0]
@@ -493,6 +509,11 @@ def run_history(b: Batch, platform, cfg, k32=None):
         if trap.records:
             b.violation(f"{platform}-exception-swallowed", f"an exception was logged and swallowed by the emitter: {trap.records[0][-300:]}", witness=dict(wit, log=trap.records[:2]), replay_spec=rs)
         # per-event scope / flavour / rename contract
+        want_type = bytes if as_bytes else str
+        for e in stream:
+            if any(p_ and not isinstance(p_, want_type) for p_ in (e.src_path, e.dest_path)):
+                b.violation(f"{platform}-wrong-path-type", f"watch scheduled with a {want_type.__name__} path delivered {fsrig.ev_desc(e)}", witness=wit, replay_spec=rs)
+                break
         for e in stream:
             b.count("events_judged")
             for p in (e.src_path, e.dest_path):
@@ -604,6 +625,7 @@ def make_cfg(r, seed, platform):
     if platform == "fsevents":
         cfg["sticky"] = r.random() < 0.35
         cfg["reuse"] = r.random() < 0.3
+        cfg["bytes"] = r.random() < 0.25
     if platform == "windows":
         cfg["parent_mod"] = r.random() < 0.5
         cfg["split_rename"] = r.random() < 0.2
